@@ -310,6 +310,16 @@ impl<'a> StagesBuilder<'a> {
         let new_reads = new_reads.into_iter();
         let new_writes = new_writes.into_iter();
 
+        // A dependency that is listed twice is still one dependency, and
+        // dependencies in front of the barrier are satisfied by the barrier.
+        // Neither may keep the pending list non-empty, or every remaining
+        // stage would be rejected and a needless new stage created.
+        new_dep.sort();
+        new_dep.dedup();
+        for stage in 0..self.barrier {
+            self.remove_ids(stage, new_dep);
+        }
+
         (self.barrier..self.stages.len())
             .map(|stage| {
                 let conflict = Self::find_conflict(
